@@ -118,6 +118,11 @@ def rule_panic(c, prog, g, dreach):
                     dbdep += 1
                     c.ok(R, inst)
                     continue
+            if fn.crate == "rbx_binary" and is_instances_by_ref_unwrap(s) and provenance_referents(fn, s["node"], prog):
+                # PROV:referents, computed: the key ranges over a TypeInfo's referents — directly, or through a slice
+                # parameter that every call site fills from one — each of which decode_inst_chunk inserted
+                c.ok(R, inst)
+                continue
             why = lookup(fn.path, s["kind"], s["fp"])
             if why is None:
                 pth = g.path_to(dreach, fn.path)
@@ -182,7 +187,19 @@ def param_dim(fn, root, depth):
     return None
 
 
-def provenance_referents(fn, node):
+def is_instances_by_ref_unwrap(site):
+    """`<map>.get(_mut)(key).unwrap()` where the map is the reader's referent -> Instance table (by type)"""
+    n = site["node"]
+    if n.get("k") != "MethodCall" or n["m"] not in ("unwrap", "expect"):
+        return False
+    r = core.strip(n["recv"])
+    if r.get("k") != "MethodCall" or r["m"] not in ("get", "get_mut") or not r["args"]:
+        return False
+    ty = (core.strip(r["recv"]).get("ty") or "") + (r["recv"].get("aty") or "")
+    return re.search(r"HashMap<i32, rbx_binary::deserializer::state::Instance", ty) is not None
+
+
+def provenance_referents(fn, node, prog=None, depth=0):
     arg = core.strip(node["recv"]) if node.get("k") == "MethodCall" else None
     # node is the unwrap call; its receiver is get_mut(<key>)
     if not arg or arg.get("k") != "MethodCall" or not arg["args"]:
@@ -218,6 +235,25 @@ def provenance_referents(fn, node):
                     return True
                 if x.get("k") == "Field" and x.get("f") == "referents":
                     return True
+            # the loop ranges over a slice parameter: every call site must hand it a TypeInfo's referents
+            if prog is not None and depth < 2:
+                plids = {}
+                for i, prm in enumerate(fn.params):
+                    for b in core.walk(prm):
+                        if b.get("k") == "Binding":
+                            plids[b["lid"]] = i
+                srcs = [plids[x["lid"]] for x in core.walk(it) if x.get("k") == "Path" and x.get("res") == "local" and x.get("lid") in plids and re.match(r"^&(mut )?(\[i32\]|alloc::vec::Vec<i32>)$", fn.params[plids[x["lid"]]].get("ty") or "")]
+                if srcs:
+                    idx = srcs[0]
+                    calls = []
+                    for g in prog.lib_fns():
+                        if g.body is None or g.crate != fn.crate:
+                            continue
+                        for y in core.walk_fn(g):
+                            if y.get("k") in ("Call", "MethodCall") and core.callee_generic(y) == fn.path:
+                                calls.append(y)
+                    if calls and all(any(z.get("k") == "Field" and z.get("f") == "referents" and "TypeInfo" in (core.strip(z["e"]).get("ty") or "") for z in core.walk(core.call_args(y)[idx])) for y in calls):
+                        return True
     return False
 
 
